@@ -249,6 +249,21 @@ def run_bounds(run, cfg, G):
     def search():
         diff_run(run, G, ["rx-bounds"], "rxb", rx_nontrivial, "rx-bounds-search", tier="thorough", seed_offset=1, record=False, extra_args=["--limit", lim])
         diff_run(run, G, ["tx-bounds"], "tx", tx_nontrivial, "tx-bounds-search", tier="thorough", seed_offset=1, record=False, extra_args=["--limit", lim])
+    # the production build (no hook): the inbound limit as shipped, around the extracted production value
+    import re as _re
+    t = open(os.path.join(VERIF, "lean", "Zlink", "Gen", "Consts.lean")).read()
+    pm = _re.search(r"def maxBufferSizeProd : Nat := (\d+)", t)
+    if pm and G["build_harness"](run, "zvrt"):
+        G["ENV"]["ZLINK_PROD_LIMIT"] = pm.group(1)
+        old = run.binary
+        run.binary = "zvrt"
+        try:
+            diff_run(run, G, ["prod"], "rxprod", lambda i, o: ["production-" + o.split()[0]], "rx-production-limit")
+        finally:
+            run.binary = old
+        run.cov["production_limit"] = int(pm.group(1))
+    else:
+        run.notes.append("production-limit run skipped: zvrt did not build or the production constant was not extracted")
     finish_corr(run, G, [search])
     run.cov["limit_used"] = int(lim)
     run.cov["rule"] = ("with the hook-lowered limit (extracted from the source, passed to the generator): inbound lone frames of wire size 256k-2..256k+2 for sampled (thorough: all) k up to "
@@ -936,11 +951,12 @@ PROPS = {
     "C17": {
         "property_modules": ["Zlink.Properties.C17"],
         "lean_modules": ["Zlink.Properties.C17"],
-        "theorems": ["C17.C17_rx_cap_bounded", "C17.C17_rx_accept", "C17.C17_rx_overflow", "C17.C17_rx_threshold",
+        "theorems": ["C17.C17_rx_cap_bounded", "C17.C17_rx_accept", "C17.C17_rx_overflow", "C17.C17_rx_threshold", "C17.C17_rx_threshold_prod",
                      "C17.C17_tx_threshold", "C17.C17_tx_cap_bounded", "C17.consts_ok"],
         "run": run_bounds, "trusted_base": TB_COMMON,
         "assumptions": RX_ASSUME[:2] + TX_ASSUME + [
-            "boundary sweeps run with the hook-lowered limit (--cfg zlink_verif: 64 KiB); the theorems are parametric in the limit and `consts_ok` checks that both the production and the hook value extracted from the source are positive multiples of the growth step",
+            "boundary sweeps run with the hook-lowered limit (--cfg zlink_verif: 64 KiB); the theorems are parametric in the limit and `consts_ok` checks that both the production and the hook value extracted from the source are positive multiples of the growth step; "
+            "the production build (harness-rt, no cfg) is run on 5 (thorough 10) frames around the extracted production limit (10 MiB, limit-1, limit, limit+1, unterminated limit+1 MiB) and compared with the closed form of C17_rx_threshold_prod",
             "the inbound overflow theorem covers input that has fully arrived (any read sizes); overflow under interleaved arrivals is covered by the correspondence run and the executable oracle only",
         ],
     },
